@@ -1096,7 +1096,12 @@ async def _dead_connection_main(case: dict) -> dict:
 
             while True:
                 try:
-                    request = yield case["idle_timeout"]
+                    if case.get("poll_style") == "own-scope" and case["idle_timeout"] == 0:
+                        # the handler bounds the wait with a scope of its own instead of yielding the timeout
+                        with client.backend().timeout(0):
+                            request = yield
+                    else:
+                        request = yield case["idle_timeout"]
                 except GeneratorExit:
                     raise
                 except BaseException as exc:  # noqa: BLE001
@@ -1257,6 +1262,7 @@ def _st_dead_connection_case_raw(draw: st.DrawFn, tier: str) -> dict:
         "errno": draw(st.sampled_from(sorted(DEAD_ERRNOS) + sorted(DISCONNECT_ERRORS) + ["PARSE", "PARSE", "PARSE", "VALID", "VALID"])),
         "tls": draw(st.booleans()),
         "per_record": draw(st.sampled_from([True, True, False])),
+        "poll_style": draw(st.sampled_from(["yield", "own-scope"])),
         "malformed": draw(st.sampled_from([3, 60, 500, 3000])),
         "handler": draw(st.sampled_from(["idle-timeout", "catch-all", "return-on-error"])),
         "idle_timeout": draw(st.sampled_from([None, 0.5, 5.0, 0.0])),  # 0: a polling handler
